@@ -18,6 +18,7 @@ package c03
 import (
 	"context"
 	"crypto/tls"
+	"encoding/base64"
 	"fmt"
 	"io"
 	"strings"
@@ -273,7 +274,60 @@ func negOpts() (out string) {
 	return "some [\n  " + strings.Join(rows, ",\n  ") + "]"
 }
 
+// scramGs2: real SCRAM clients of the dependency over every connection kind: which mechanism
+// is selected and which channel-binding flag its client-first message carries
+// ("n", "y", "p=tls-unique", "p=tls-exporter"; "-" when no <auth/> was written)
+func scramGs2() (out string) {
+	defer func() {
+		if recover() != nil {
+			out = "none"
+		}
+	}()
+	byName := map[string]sasl.Mechanism{}
+	for _, m := range exportedMechs() {
+		byName[m.Name] = m
+	}
+	lists := [][]string{{"SCRAM-SHA-1"}, {"SCRAM-SHA-1-PLUS"}, {"SCRAM-SHA-1-PLUS", "SCRAM-SHA-1"}, {"SCRAM-SHA-256-PLUS", "SCRAM-SHA-1"}}
+	advs := [][]string{{"SCRAM-SHA-1"}, {"SCRAM-SHA-1-PLUS"}, {"SCRAM-SHA-1", "SCRAM-SHA-1-PLUS"}, {"SCRAM-SHA-256-PLUS", "SCRAM-SHA-256"}}
+	var rows []string
+	for kind := 0; kind < 4; kind++ {
+		for _, cl := range lists {
+			for _, adv := range advs {
+				var ms []sasl.Mechanism
+				for _, n := range cl {
+					ms = append(ms, byName[n])
+				}
+				conn := nc.NewConn(nc.S(nc.Header("jabber:client", "sid1", "example.net", "user@example.net")), nc.S(advXML(adv)))
+				_, pv := probeSession(connOfKind(kind, conn), false, xmpp.Secure, xmpp.SASL("", "pw", ms...))
+				if pv != "" {
+					return "none"
+				}
+				used, flag := "-", "-"
+				if streams, err := nc.ParseWritten(conn.Written()); err == nil && len(streams) > 0 {
+					for _, e := range streams[0].Elems {
+						if e.Name.Space == nsSASL && e.Name.Local == "auth" {
+							used, _ = e.AttrVal("mechanism")
+							raw, derr := base64.StdEncoding.DecodeString(strings.TrimSpace(e.Text))
+							if derr != nil {
+								return "none"
+							}
+							flag = string(raw)
+							if i := strings.Index(flag, ","); i >= 0 {
+								flag = flag[:i]
+							}
+						}
+					}
+				}
+				rows = append(rows, fmt.Sprintf("(%d, %s, %s, %q, %q)", kind, leanStrs(cl), leanStrs(adv), used, flag))
+			}
+		}
+	}
+	return "some [\n  " + strings.Join(rows, ",\n  ") + "]"
+}
+
 func probeFacts(sb *strings.Builder) {
+	sb.WriteString("\n/-- PROBE: real SCRAM clients: (connection kind, configured, advertised, mechanism in <auth/>, channel-binding flag of the client-first message) -/\n")
+	fmt.Fprintf(sb, "def saslScramGs2 : Option (List (Nat × List String × List String × String × String)) := %s\n", scramGs2())
 	sb.WriteString("\n/-- PROBE: (role, mechanism names, `Necessary`, `Prohibited`) of the feature values the code under test builds for every list of one or two exported mechanisms -/\n")
 	fmt.Fprintf(sb, "def saslGateMasks : Option (List (String × List String × Nat × Nat)) := %s\n", gateMasks())
 	sb.WriteString("\n/-- PROBE: complete sessions started in every subset of {Secure = 1, Authn = 2}: (role, initial state, mechanism, offered / tried, `Negotiate` ran) -/\n")
